@@ -153,6 +153,28 @@ func Alphabet(contents []string, nspell int, views [][]string, escapes bool, rea
 	return ops
 }
 
+// EscapingViewOps: operations issued through view chains whose LAST Filespace() argument climbs above
+// the view it is asked of (a child view asked for "..", "../b", "b/../..", a grandchild for "../.."):
+// creating such a view must fail, whatever is then done through it.
+func EscapingViewOps(contents []string) []GenOp {
+	var ops []GenOp
+	last := contents[len(contents)-1]
+	for _, v := range [][]string{{".."}, {"a", ".."}, {"a", "../b"}, {"a", "b/../.."}, {"a", "b", "../.."}, {"a", "b", "../../b"}, {"./a/", "/../"}} {
+		tag := "escaping-view@view(" + strings.Join(v, ",") + ")"
+		for _, p := range []string{".", "a", "b", "a/a"} {
+			for _, k := range []string{"ReadDir", "Lstat", "ReadFile", "MkdirAll", "Remove", "RemoveAll"} {
+				ops = append(ops, GenOp{treefs.Op{Kind: k, P: p, View: v}, tag})
+			}
+			ops = append(ops, GenOp{treefs.Op{Kind: "Reader", P: p, Buf: 64, View: v}, tag},
+				GenOp{treefs.Op{Kind: "WriteFile", P: p, Data: last, View: v}, tag},
+				GenOp{treefs.Op{Kind: "Writer", P: p, Chunks: []string{last}, View: v}, tag},
+				GenOp{treefs.Op{Kind: "Copy", P: p, Q: "b/b", View: v}, tag},
+				GenOp{treefs.Op{Kind: "CopyFile", P: "a", Q: p, View: v}, tag})
+		}
+	}
+	return ops
+}
+
 // Depth returns the depth of the deepest node of a model tree.
 func Depth(t *treefs.Node) int {
 	d := 0
